@@ -226,19 +226,38 @@ class ModbusRtuFramer(ModbusFramer):
             unit = [unit]
         self.addToFrame(data)
         single = kwargs.get("single", False)
-        if self.isFrameReady():
+        # handle every complete frame the buffer holds, keep an incomplete one
+        while self._completeFrameBuffered():
             if self.checkFrame():
                 if self._validate_unit_id(unit, single):
                     self._process(callback)
                 else:
                     _logger.debug("Not a valid unit id - {}, "
                                   "ignoring!!".format(self._header['uid']))
-                    self.resetFrame()
+                    # skip this frame only, keep what follows it
+                    self.advanceFrame()
             else:
                 _logger.debug("Frame check failed, ignoring!!")
                 self.resetFrame()
-        else:
-            _logger.debug("Frame - [{}] not ready".format(data))
+                break
+
+    def _completeFrameBuffered(self):
+        """ Check whether the buffer starts with a complete frame
+
+        The size of the frame is worked out from the bytes at the head of the
+        buffer; while there are too few of them to tell, or fewer than the
+        frame needs, the frame is incomplete and we wait for more data.
+        """
+        if 'len' not in self._header:
+            self._header = {}  # forget a header that was only half worked out
+        try:
+            if not self.isFrameReady():
+                return False
+            self.populateHeader()
+        except (IndexError, KeyError, struct.error):
+            self._header = {}
+            return False
+        return len(self._buffer) >= self._header['len']
 
     def buildPacket(self, message):
         """
